@@ -187,7 +187,7 @@ def lean_check(modules, thorough=False):
     if not ok:
         res["ok"] = False
         res["failures"].append("lake build failed: " + log[-1500:])
-    hits = lean.forbidden_hits()
+    hits = lean.forbidden_hits(modules)
     if hits:
         res["ok"] = False
         res["failures"].append("forbidden tokens: " + "; ".join(hits[:5]))
